@@ -34,13 +34,19 @@ def raw_sign(curve, d, e, k):
     return r, s, R
 
 
+def verification_point(curve, Q, e, r, s):
+    """(e/s) G + (r/s) Q for r, s in [1, n-1] (None = the point at infinity)."""
+    n = curve.n
+    w = pow(s, -1, n)
+    return curve.add(curve.mul(e * w % n, curve.G), curve.mul(r * w % n, Q))
+
+
 def verify(curve, Q, e, r, s):
     """4.1.4. Q may be any point of the group (None = infinity is evaluated literally as the identity)."""
     n = curve.n
     if not (1 <= r < n and 1 <= s < n):
         return False
-    w = pow(s, -1, n)
-    X = curve.add(curve.mul(e * w % n, curve.G), curve.mul(r * w % n, Q))
+    X = verification_point(curve, Q, e, r, s)
     if X is INF:
         return False
     return X[0] % n == r
@@ -185,9 +191,11 @@ def der_sig_decode(b):
 # -- self-test -------------------------------------------------------------------------------------
 
 def selftest(full=False):
-    toys = ec.toy_curves(80)
+    toys = ec.toy_curves(48)
     stats = {"curves": 0, "sign_verify_recover": 0, "verify_table": 0, "der": 0}
-    pick = toys if full else toys[::9]
+    small = [c for c in toys if c.n <= 13]          # 38 curves, all of them when full
+    mid = [c for c in toys if 13 < c.n <= 37]
+    pick = (small + mid[::7]) if full else (small[::6] + mid[3:4])
     for c in pick:
         n = c.n
         stats["curves"] += 1
@@ -214,8 +222,8 @@ def selftest(full=False):
                         assert Q in recover(c, e, r, s, y_parity=R[1] & 1, all_j=False)
                         assert Q not in recover(c, e, r, s, y_parity=1 - (R[1] & 1), all_j=False)
         # verification formula == signer-side definition for every (d, e, r, s), out-of-range values included
-        for d in list(range(1, n))[:: (1 if full or n < 12 else 3)]:
-            for e in range(n):
+        for d in (list(range(1, n)) if n <= 13 else [1, n // 2, n - 1]):
+            for e in (range(n) if n <= 13 else (0, 1, n - 1)):
                 for r in range(0, n + 2):
                     for s in range(0, n + 2):
                         assert verify(c, pub[d], e, r, s) == verify_by_definition(c, d, e, r, s), (c.name, d, e, r, s)
